@@ -182,7 +182,7 @@ def make(cname, depth=0):
             except Exception:  # noqa: BLE001
                 pass
     tun = {}
-    for tn, tv in (("max_attempts", 17), ("default_label", 0), ("bias_towards_insert", 0.3)):
+    for tn, tv in (("max_attempts", int(rng.choice([17, 10000, 10, 1]))), ("default_label", 0), ("bias_towards_insert", 0.3)):
         if hasattr(obj, tn) and tn not in kw and not isinstance(getattr(type(obj), tn, None), property):
             try:
                 setattr(obj, tn, tv)
@@ -254,7 +254,13 @@ if req.get("simulations", True):
     for sname, (cls, kw, settings) in specs.items():
         rec = {}
         try:
+            variant = int(rng.integers(0, 3))
+            if variant == 1:
+                kw = {k_: v_ for k_, v_ in kw.items() if k_ != "max_cycles"}      # cycles per step left at its default ...
             mc = cls(sim_atoms(), logfile=None, **kw)
+            if variant >= 1:
+                mc.max_cycles = 2                                                  # ... and/or re-tuned on the existing object
+                mc.temperature = 512.5
             if sname == "GrandCanonical":
                 mc.accessible_volume = 77.5
             mc.add_move(make("DisplacementMove"), name="m")
